@@ -12,7 +12,9 @@ Inductive obs := ObsError (e : option string) | ObsRaised.
 Inductive case :=
 | Conn (bp bg : bool) (m : proxy_mode) (a : ip) (impl : obs)
 | E2E (bp bg : bool) (m : proxy_mode) (a : ip) (impl : obs) (impl_actions : list action)
-| Diffs (impl_diff4 impl_diff6 : list (N * N)).
+| Diffs (impl_diff4 impl_diff6 : list (N * N))
+(* a sequence of connections served by ONE addon instance, with the error observed after each *)
+| Hist (steps : list (conn * obs)).
 
 Definition action_eqb (x y : action) : bool :=
   match x, y with
@@ -34,5 +36,10 @@ Definition check_case (c : case) : bool :=
   | E2E bp bg m a impl acts =>
       conn_ok bp bg m a impl
       && list_eqb action_eqb (handle_client_after_hook (refused bp bg m a)) acts
+  | Hist steps =>
+      let outs := run_history initial_state (map fst steps) in
+      Nat.eqb (List.length outs) (List.length steps)
+      && forallb (fun p => match snd p with ObsError x => option_eqb String.eqb (fst p) x | ObsRaised => false end)
+                 (combine outs (map snd steps))
   | Diffs d4 d6 => list_eqb net_eqb diff4 d4 && list_eqb net_eqb diff6 d6
   end.
